@@ -36,7 +36,7 @@ def default_playback_replayer(crate_dir, rel_file_of):
 
 
 def run_property(prop, level, harnesses, crate_dir, target_dir, replayer, package=None, jobs=8,
-                 known_matcher=None, env=None, extra_cov=None, run=None, mem_gb=32):
+                 known_matcher=None, env=None, extra_cov=None, run=None, mem_gb=32, playback=False):
     """harnesses: list[H].  Returns exit code (evidence written)."""
     run = run or Run(prop, level)
     t = tier()
@@ -44,7 +44,7 @@ def run_property(prop, level, harnesses, crate_dir, target_dir, replayer, packag
     names = [h.name for h in sel]
     tmax = max(h.timeout for h in sel)
     res, wall, out = kani.run_kani(crate_dir, names, target_dir, jobs=jobs, harness_timeout=tmax,
-                                   package=package, env=env, mem_gb=mem_gb)
+                                   package=package, env=env, mem_gb=mem_gb, playback=playback)
     evaluations = 0
     nontrivial = 0
     hl = []
@@ -79,6 +79,11 @@ def run_property(prop, level, harnesses, crate_dir, target_dir, replayer, packag
             only_unwind = r.failed_descs and all("unwinding assertion" in f[0] for f in r.failed_descs)
             if only_unwind:
                 run.inconc("harness %s: unwinding assertion failed - bound too small, nothing claimed" % h.name)
+                continue
+            if len(run.violations) >= 2:
+                # two reproduced violations already decide the verdict; further failing harnesses
+                # are listed, not individually replayed (each replay is a solver re-run)
+                samples.append({"harness": h.name, "failed_checks": r.failed_descs[:3], "reproduced": "not replayed (cap of 2 reproduced violations reached)"})
                 continue
             log("[%s] harness %s FAILED: %s -- replaying" % (prop, h.name, r.failed_descs[:3]))
             rep, obj = replayer(h, r, target_dir, package)
